@@ -278,3 +278,26 @@ func (r *VRep) LiveEnd(n int64) uint64 {
 	w, i := r.SegIdx(n)
 	return uint64(w)*r.LoopTicks() + r.Segs[i].End
 }
+
+// LastEnded returns the largest segment index n whose end (minus atoMS) has been reached at
+// relMS milliseconds after stream start, or -1. Exact: end(n)*1000/ts - atoMS <= relMS.
+func (r *VRep) LastEnded(relMS, atoMS int64) int64 {
+	x := relMS + atoMS // end(n) in ms must be <= x
+	if x < 0 {
+		return -1
+	}
+	N := int64(len(r.Segs))
+	loop := r.LoopTicks()
+	// ticks budget: end(n) <= x*ts/1000  (floor keeps exactness: end is an integer number of ticks)
+	lim := FloorMulDiv(uint64(x), r.TS, 1000)
+	w := int64(lim / loop)
+	n := w*N - 1 // last segment of the previous wrap certainly ended (if w > 0)
+	for k := int64(0); k < N; k++ {
+		if r.LiveEnd(w*N+k) <= lim {
+			n = w*N + k
+		} else {
+			break
+		}
+	}
+	return n
+}
